@@ -1,6 +1,6 @@
 (* C11 — Prolly maps behave as sorted dictionaries.  Property theorems only. *)
 From Coq Require Import NArith List Bool.
-From Dolt Require Import Prolly.Tree Prolly.Cursor C11.Model C11.Spec C11.Proofs.
+From Dolt Require Import Prolly.Tree Prolly.Cursor C11.Model C11.Spec C11.Corr C11.Proofs C11.CorrProofs.
 Import ListNotations.
 Local Open Scope N_scope.
 
@@ -105,3 +105,31 @@ Theorem C11_mutable_get_refines_partial :
             /\ m_has q (run_m rb t maxp ops) = d_has q (dict_after t ops).
 Proof. exact mutable_get_refines_partial. Qed.
 Print Assumptions C11_mutable_get_refines_partial.
+
+(* THE REFINEMENT of the mutable map: every Put / Delete / Checkpoint / Revert / flush
+   sequence satisfying the decidable side condition hist_ok (no Revert across a flush),
+   every rebuild function, every read.  The extra hypotheses on the prefix reads and on
+   IterKeyRange are the negations of the refuted configurations. *)
+Theorem C11_mutable_refines :
+  forall rb : list kv -> node, rb_ok rb ->
+  forall t maxp ops, wf_root t -> hist_ok rb (mutate t maxp) false ops = true ->
+    let m := run_m rb t maxp ops in
+    let d := dict_after t ops in
+    (forall q, m_get q m = d_get q d /\ m_has q m = d_has q d)
+    /\ m_iter_all m = d
+    /\ (forall lo hi, m_iter_range lo hi m = d_range lo hi d)
+    /\ (wf_root (materialize rb m) /\ flatten (materialize rb m) = d)
+    /\ (forall pre a, pre_monotone pre -> no_pending_with (fun k => pre k =? a) m ->
+          m_get_prefix pre a m = d_get_prefix pre a d /\ m_has_prefix pre a m = d_has_prefix pre a d)
+    /\ (forall lo hi, e_view (m_edits m) = [] -> start_past_end_open_stop lo hi (m_static m) = false ->
+          m_iter_key_range lo hi m = Some (d_range lo hi d)).
+Proof. exact mutable_refines. Qed.
+Print Assumptions C11_mutable_refines.
+
+(* the oracle holds on the model, for every static-map case *)
+Theorem C11_static_oracle_holds :
+  forall i, i_ops i = [] -> i_w i <> 0 -> wf_root (i_tree i) -> flatten (i_tree i) = i_init i ->
+    (forall r, In r (p_rng (i_probes i)) -> start_past_end_open_stop (fst r) (snd r) (i_tree i) = false) ->
+    oracle i (model_obs i) = true.
+Proof. exact static_oracle_holds. Qed.
+Print Assumptions C11_static_oracle_holds.
